@@ -84,6 +84,10 @@ def trace_function(fn, kwargs: dict, *, allow_constants=False):
         arg_ids = tuple(ids[id(arg)] for arg in args)
         operations.append((op, arg_ids))
 
+    # An OpProgram returns its last slot.
+    if ids[id(root)] != len(ids) - 1:
+        raise NotImplementedError("TODO trace functions that return an input")
+
     return OpProgram(constants, inputs, operations)
 
 
